@@ -29,6 +29,9 @@ import (
 // c02AcceptHook: the current state's record of accepted hashes (set by c02NewStateN).
 var c02AcceptHook func(common.Hash)
 
+// c02IgnoredHook: by-construction check of an `ignored` answer outside runCase (set by c02NewStateN).
+var c02IgnoredHook func(*types.Block)
+
 func c02InsertVerdict(n *Node, b *types.Block) (string, string) {
 	consensus.VerifSetSigCache(common.Hash{}, nil) // see runCase: one process, several identities
 	return SafeMsg(func() string {
@@ -40,6 +43,9 @@ func c02InsertVerdict(n *Node, b *types.Block) (string, string) {
 			}
 			return "ok"
 		case consensus.ErrIgnoreBlock:
+			if c02IgnoredHook != nil {
+				c02IgnoredHook(b)
+			}
 			return "ignored"
 		case consensus.ErrVerifyBlockFailed:
 			return "reject"
